@@ -87,7 +87,7 @@ func (o Op) String() string {
 	case "chown":
 		s += fmt.Sprintf(" %d:%d", o.U, o.G)
 	case "chtimes":
-		s += fmt.Sprintf(" a=%d m=%d", o.T1, o.T2)
+		s += fmt.Sprintf(" a=%d m=%d +%dns", o.T1, o.T2, o.N)
 	case "h.read", "h.readdir", "h.readdirnames":
 		s += fmt.Sprintf(" n=%d", o.N)
 	case "h.readat":
@@ -99,7 +99,7 @@ func (o Op) String() string {
 	case "h.writeat":
 		s += fmt.Sprintf(" off=%d", o.O)
 	case "sleep":
-		s += fmt.Sprintf(" %ds", o.O)
+		s += fmt.Sprintf(" %ds+%dns", o.O, o.N)
 	}
 	if o.D != nil {
 		s += fmt.Sprintf(" data(%d,%s,%08x)", o.D.Len, o.D.Kind, o.D.Tag)
@@ -254,7 +254,7 @@ func (e *Exec) Do(o Op) (res Res) {
 	}
 	switch o.K {
 	case "sleep":
-		d := time.Duration(o.O) * time.Second
+		d := time.Duration(o.O)*time.Second + time.Duration(o.N)
 		if e.Sched != nil {
 			e.Sched.Sleep(d)
 		} else {
@@ -294,7 +294,7 @@ func (e *Exec) Do(o Op) (res Res) {
 	case "chown":
 		return mkRes(fs.Chown(o.P, o.U, o.G))
 	case "chtimes":
-		return mkRes(fs.Chtimes(o.P, time.Unix(o.T1, 0), time.Unix(o.T2, 0)))
+		return mkRes(fs.Chtimes(o.P, time.Unix(o.T1, int64(o.N)), time.Unix(o.T2, int64(o.N))))
 	case "stat":
 		fi, err := fs.Stat(o.P)
 		r := mkRes(err)
